@@ -446,6 +446,49 @@ def replay_dtype(args):
     return True, "held"
 
 
+def ob_suffstat_ties():
+    """ties: a coalescent time (or the root, or a sampling time) EXACTLY on a grid point — measure zero for the symbolic obligations, which
+    assume distinct times, but ordinary for grids at round numbers.  The density rebuilt from the sufficient statistics and coalescent counts
+    equals log_prob of the same object (and the Kingman oracle) on concrete instances with such ties."""
+    def body():
+        import torchtree.evolution.coalescent as co
+        t64 = lambda v: torch.tensor(v, dtype=torch.float64)
+        cases = [
+            ([2.5, 5.0, 7.5, 10.0], [0.0, 0.0, 0.0, 0.0], [1.0, 5.0, 8.2], [2.0, 3.0, 1.5, 0.7, 4.0]),
+            ([2.5, 5.0, 7.5], [0.0, 0.0, 0.0, 0.0], [2.5, 5.0, 7.5], [2.0, 3.0, 1.5, 0.7]),
+            ([3.0], [0.0, 1.0, 0.0], [3.0, 4.5], [1.3, 2.9]),
+            ([2.0, 4.0], [0.0, 2.0, 0.0, 0.0], [1.0, 3.0, 4.0], [0.8, 1.9, 3.3]),
+            ([1.0, 2.0, 3.0], [0.0, 0.0, 0.0], [0.4, 1.7], [2.0, 0.5, 1.1, 3.0]),      # control: no ties, grid beyond the root
+        ]
+        n = 0
+        for grid, tips, coal, theta in cases:
+            nh = t64(tips + coal)
+            th = t64(theta)
+            dist = co.PiecewiseConstantCoalescentGrid(th, t64(grid))
+            lp = float(dist.log_prob(nh).reshape(-1)[0])
+            ss, counts = dist.sufficient_statistics(nh)
+            rebuilt = float(-(ss / th).sum() - (counts.double() * th.log()).sum())
+            # at an exact tie the value of a piecewise-constant N(t) AT the breakpoint is a convention (measure zero): only the control
+            # case (no tie) is compared with the Kingman oracle; the property's clause is that the statistics reproduce the object's own density
+            tie = any(c in grid for c in coal)
+            want = lp if tie else float(kingman.log_density(tips, coal, kingman.GridConstant(theta, grid)))
+            n += 1
+            if abs(rebuilt - lp) > 1e-10 * max(1.0, abs(lp)) or abs(lp - want) > 1e-10 * max(1.0, abs(want)):
+                raise Refuted("skygrid with grid %s, tips %s, coalescent times %s: log_prob %.10f, rebuilt from sufficient statistics %.10f, Kingman density %.10f (counts %s)"
+                              % (grid, tips, coal, lp, rebuilt, want, counts.tolist()), witness={"grid": grid, "tips": tips, "coalescent": coal, "theta": theta},
+                              replay={"kind": "custom", "contract": "C20", "func": "replay_suffstat_ties", "args": {}}, confirmed=True)
+        return {"backend": "concrete", "cases": n, "statement": "%d skygrid instances with events exactly on grid points: sufficient statistics + counts reproduce log_prob and the Kingman density" % n}
+    return Ob("C20.suffstat.skygrid.ties", "B", body, clause="sufficient statistics and coalescent counts reproduce the log density (events exactly on grid points, bounded)", funcs=FUNCS)
+
+
+def replay_suffstat_ties(args):
+    try:
+        ob_suffstat_ties().fn()
+    except Refuted as e:
+        return False, e.detail
+    return True, "held"
+
+
 def replay_history(args):
     try:
         ob_history(args["kind"], args["depth"]).fn()
@@ -460,6 +503,7 @@ def obligations(tier, seed):
         obs.append(ob_history(kind, 3 if tier == "quick" else 4))
         obs.append(ob_dtype(kind))
     obs.append(ob_json_variants())
+    obs.append(ob_suffstat_ties())
 
     def add(name, factory, args, clause, **kw):
         kw.setdefault("max_paths", 20000)
